@@ -24,6 +24,11 @@ def inner(name):
     return Sym(name + ".0")
 
 
+def units_debug_profile(prog):
+    """overflow checks (and therefore the recorded footprint) exist only in profiles with debug assertions"""
+    return "debug_assertions" in prog.facts.get("cfg", [])
+
+
 def check_int_ops(chk, prog, sim):
     n = 0
     for imp, tr, fn in Q.ops_impls(prog, INT_TYPES):
@@ -61,6 +66,14 @@ def check_int_ops(chk, prog, sim):
             want_ty = "Time" if "Time" in (imp["self"]["name"], ty_str(rhs)) else "DimensionlessInteger"
             if got != exp or out_ty != want_ty:
                 chk.violation("C18.int-op", key, "%s computes %s(%r), expected %s(%r)" % (imp["trait_ref"], out_ty, got, want_ty, exp), fn=fn["pretty"], file=loc(fn["span"]))
+                ok = False
+            # "exact i64 arithmetic" includes WHERE it overflows: the only overflow-capable step may be the operator itself on the two
+            # operands (t - u written as t + (-u) panics for u = i64::MIN although t - u is representable)
+            foot = [tuple(x) for x in leaf.state.arith]
+            want_foot = {"Add": [("Add", repr(a), repr(b))], "Sub": [("Sub", repr(a), repr(b))], "Mul": [("Mul", repr(a), repr(b))], "Neg": [("Neg", repr(a), "")]}.get(base)
+            if want_foot is not None and units_debug_profile(prog) and foot != want_foot:
+                chk.violation("C18.int-op", key + ":overflow-footprint", "%s reaches its result through overflow-capable steps %s instead of the single i64 operation %s: it panics (debug) or wraps differently for operands where the plain operator is exact"
+                              % (imp["trait_ref"], foot, want_foot), fn=fn["pretty"], file=loc(fn["span"]))
                 ok = False
             chk.sample({"impl": imp["trait_ref"], "result": repr(res)}, cap=6)
         if ok:
@@ -231,6 +244,14 @@ def run(chk):
     for v in chk.violations[before:]:
         v["key"] += "@K4"
         v["what"] = "[dimension checking compiled out] " + v["what"]
+    # "conversion of any other unit fails" also in the release profile with dim_check_release (K7)
+    p7 = load_config("K7")
+    chk.configs.append("K7")
+    before = len(chk.violations)
+    check_conversions(chk, p7, S.Sim(p7), "@K7")
+    for v in chk.violations[before:]:
+        v["key"] += "@K7"
+        v["what"] = "[release profile with dim_check_release] " + v["what"]
     nm = 0
     for imp, tr, fn in Q.ops_impls(prog):
         sname = imp["self"]["name"]
